@@ -42,6 +42,11 @@ pub struct WorldExec {
     /// the reloader thread of this cache (as seen by the yield hook)
     hr_thread: Option<u64>,
     leak: bool,
+    static_mode: bool,
+    /// set when a reload pass loaded an asset that was not cached before the pass: from then on the cached values
+    /// depend on the (unspecified) order in which the assets of that pass were reloaded — see known finding F-C05d —
+    /// and engines that compare values with the model stop the case here
+    pub unspecified: bool,
 }
 
 pub const ALL_TYPES: &[&str] = &["S0", "S1", "S2", "N0", "I", "M00", "M01", "M10", "M11", "M20", "M21", "M30", "M31", "M40", "M41", "M50", "M51",
@@ -90,7 +95,7 @@ impl WorldExec {
                 std::thread::yield_now();
             }
         }
-        WorldExec { src, fe, via_any, has_reloader, handles: BTreeMap::new(), next_h: 0, watchers: BTreeMap::new(), hr_thread, leak: false, universe_ids: crate::eng_cache::IDS.iter().map(|s| s.to_string()).chain(["".to_string(), "d".to_string(), "d.e".to_string()]).collect() }
+        WorldExec { src, fe, via_any, has_reloader, handles: BTreeMap::new(), next_h: 0, watchers: BTreeMap::new(), hr_thread, leak: false, static_mode: false, unspecified: false, universe_ids: crate::eng_cache::IDS.iter().map(|s| s.to_string()).chain(["".to_string(), "d".to_string(), "d.e".to_string()]).collect() }
     }
 
     /// Quiescence barrier without sleeping: nothing is pending in either channel and the reloader
@@ -152,6 +157,18 @@ impl WorldExec {
     pub fn op(&mut self, line: &str) -> String {
         let w: Vec<&str> = line.split_whitespace().collect();
         if w.is_empty() { return "bad-op".into(); }
+        let is_pass = self.has_reloader && (w[0] == "reload" || w[0] == "enhance" || (w[0] == "notify" && self.static_mode));
+        if is_pass {
+            let before: Vec<(String, String)> = self.snapshot().into_keys().collect();
+            let out = self.op_inner(line);
+            if self.snapshot().keys().any(|k| !before.contains(k)) { self.unspecified = true; }
+            return out;
+        }
+        self.op_inner(line)
+    }
+
+    fn op_inner(&mut self, line: &str) -> String {
+        let w: Vec<&str> = line.split_whitespace().collect();
         let s = |i: usize| -> String { w.get(i).map(|x| unhexs(x)).unwrap_or_default() };
         if w[0].starts_with("src.") && w.len() >= 2 { let id = s(1); self.note_id(&id); }
         match w[0] {
@@ -296,6 +313,7 @@ impl WorldExec {
                     let c: &'static AssetCache<MemSource> = unsafe { &*(&**c as *const AssetCache<MemSource>) };
                     c.enhance_hot_reloading();
                     self.leak = true;
+                    self.static_mode = true;
                 }
                 if self.sync() { "ok".into() } else { "sync-timeout".into() }
             }
